@@ -1,6 +1,7 @@
 package main
 
 import (
+	blocks "github.com/ipfs/go-block-format"
 	"bytes"
 	"errors"
 	"fmt"
@@ -138,6 +139,11 @@ func runBrposImplD(c *Ctx, kind uint64, chunk int, dataErr bool, o rOpts, file [
 	p0, h0 := posHw()
 	steps := VL{}
 	var end Val = VL{VT("stop")}
+	// what the calls handed out is kept for the whole walk (the way a caller collecting blocks and
+	// offsets does) and read again after it: nothing returned earlier may change under later calls
+	var keptBlocks []blocks.Block
+	var keptMeta []*carv2.BlockMetadata
+	var keptKind []bool
 	for _, next := range choices {
 		if next {
 			b, err := br.Next()
@@ -146,7 +152,9 @@ func runBrposImplD(c *Ctx, kind uint64, chunk int, dataErr bool, o rOpts, file [
 				break
 			}
 			p, h := posHw()
-			steps = append(steps, VL{VT("N"), VB(b.Cid().Bytes()), VB(b.RawData()), VN(p), VN(h)})
+			steps = append(steps, VL{VT("N"), VB(b.Cid().Bytes()), VB(append([]byte(nil), b.RawData()...)), VN(p), VN(h)})
+			keptBlocks = append(keptBlocks, b)
+			keptKind = append(keptKind, true)
 		} else {
 			m, err := br.SkipNext()
 			if err != nil {
@@ -155,9 +163,24 @@ func runBrposImplD(c *Ctx, kind uint64, chunk int, dataErr bool, o rOpts, file [
 			}
 			p, h := posHw()
 			steps = append(steps, VL{VT("S"), VB(m.Cid.Bytes()), VN(m.Offset), VN(m.SourceOffset), VN(m.Size), VN(p), VN(h)})
+			keptMeta = append(keptMeta, m)
+			keptKind = append(keptKind, false)
 		}
 	}
-	return VL{VT("ok"), VN(br.Version), cidsVal(br.Roots), VN(p0), VN(h0), steps, end}
+	after := VL{}
+	bi, mi := 0, 0
+	for _, isNext := range keptKind {
+		if isNext {
+			b := keptBlocks[bi]
+			bi++
+			after = append(after, VL{VT("N"), VB(b.Cid().Bytes()), VB(b.RawData())})
+		} else {
+			m := keptMeta[mi]
+			mi++
+			after = append(after, VL{VT("S"), VB(m.Cid.Bytes()), VN(m.Offset), VN(m.SourceOffset), VN(m.Size)})
+		}
+	}
+	return VL{VT("ok"), VN(br.Version), cidsVal(br.Roots), VN(p0), VN(h0), steps, end, after}
 }
 
 func endVal(err error, posHw func() (uint64, uint64)) Val {
